@@ -171,7 +171,13 @@ func RunWorker(o WorkerOpts) int {
 				sum.Sigs[sig]++
 				if sum.Sigs[sig] == 1 && minimised < 4 {
 					minimised++
-					path, detail := reportViolation(e, o, u, mySub, plan, r)
+					// the unminimised replay is on record before minimisation starts: a worker that dies
+					// while minimising (memory, watchdog) must not take the violation with it
+					pre := func(path, detail string) {
+						emit(Msg{Type: "violation", Unit: u, Sub: mySub, Sig: sig, Replay: path, Detail: detail})
+						out.Flush()
+					}
+					path, detail := reportViolation(e, o, u, mySub, plan, r, pre)
 					emit(Msg{Type: "violation", Unit: u, Sub: mySub, Sig: sig, Replay: path, Detail: detail})
 				}
 			}
@@ -227,7 +233,7 @@ func sampleOf(e Engine, plan any) json.RawMessage {
 	return b
 }
 
-func reportViolation(e Engine, o WorkerOpts, u, sub int, plan any, r *Result) (string, string) {
+func reportViolation(e Engine, o WorkerOpts, u, sub int, plan any, r *Result, pre func(path, detail string)) (string, string) {
 	sig := r.Violations[0].Sig()
 	// what is executed from here on is what a replay file holds
 	rt := RoundTrip(e, plan)
@@ -235,6 +241,19 @@ func reportViolation(e Engine, o WorkerOpts, u, sub int, plan any, r *Result) (s
 	if !hasSig(r2, sig) {
 		// the plan does not reproduce through its own serialisation: harness bug
 		return "", "NONDETERMINISTIC: violation did not reproduce from its serialised plan: " + r.Violations[0].Detail
+	}
+	if pre != nil {
+		rp0 := &Replay{Property: e.Property(), Engine: e.Name(), Seed: o.Seed, Tier: o.Tier, Unit: u, Sub: sub,
+			Violation: r.Violations[0], Hash: r2.Hash, Plan: planJSON(rt)}
+		for _, x := range r2.Violations {
+			if x.Sig() == sig {
+				rp0.Violation = x
+				break
+			}
+		}
+		if path, err := WriteReplay(o.ReplayDir, rp0); err == nil {
+			pre(path, rp0.Violation.Rule+": "+rp0.Violation.Detail)
+		}
 	}
 	min, st := Minimise(e, rt, sig, 3000)
 	rf := SafeExecute(e, min, true)
